@@ -58,6 +58,7 @@ Proof.
     destruct (f_gtype f).
     + rewrite equal_fold_refl. reflexivity.
     + rewrite Bool.eqb_reflx. reflexivity.
+    + rewrite cs_eqb_refl. destruct parsed; reflexivity.
     + rewrite cs_eqb_refl. reflexivity.
   - reflexivity.
 Qed.
